@@ -3,13 +3,19 @@ from __future__ import annotations
 import z3
 from z3 import And, Or, Not, Implies, BoolVal, If
 from pyvc import terms as T
-from pyvc.terms import Ref, Int, RSeq, NONE, Cnt, Mem, Len, snoc, cat, ite, EMPTY, unit
+from pyvc.terms import Ref, Int, RSeq, NONE, Cnt, Mem, Len, snoc, cat, ite, EMPTY, unit, Nth
 from pyvc.contracts import REG, Schema, LoopInv, Loose
 from pyvc.values import *
 from .common import *
 
 contract = REG.contract
 MARK = z3.StringVal("__make_pyvis_net_i")
+NET_FIELDS = ("net_nodes", "net_labels", "net_from", "net_to", "net_arrow", "net_directed")
+
+
+def net_unconstrained():
+    """the fields of the pyvis network object: not part of the edgegraph state, unconstrained in the frame contract"""
+    return [Loose(f_, lambda new, old, *_: []) for f_ in NET_FIELDS]
 
 
 def no_marker(S):
@@ -44,6 +50,7 @@ def _(c):
     o.loose("dyn_has", lambda new, old, *_: [Schema("attribute-set-unchanged", (Ref, T.Str), lambda ob, n: new(ob, n) == old(ob, n), trigger=("dyn_has",))])
     o.loose("dyn_val", lambda new, old, P=None, *_: [Schema("attribute-values-unchanged", (Ref, T.Str), lambda ob, n: Implies(
         And(n != MARK, S.read("dyn_has", ob, n)), new(ob, n) == old(ob, n)), trigger=("dyn_val",))])
+    o.o.loose += net_unconstrained()
 
 
 def _marker_inv(L, marked):
@@ -59,7 +66,7 @@ def _marker_inv(L, marked):
             n != MARK, new(ob, n) == S0.read("dyn_val", ob, n)), trigger=("dyn_val",))]
     ct = L.engine.ct
     verts = L.st.elems(L.env["verts"].ref)
-    return LoopInv(loose=[Loose("dyn_has", c_has), Loose("dyn_val", c_val)],
+    return LoopInv(loose=[Loose("dyn_has", c_has), Loose("dyn_val", c_val)] + net_unconstrained(),
                    schemas=[Schema("listed-members-are-vertices", (Ref,), lambda x: Implies(Mem(verts, x), And(x != NONE, ct.is_a(x, "Vertex"))))])
 
 
@@ -86,6 +93,292 @@ def _(L):
     # the finally block: whatever happened before, the marker is gone from the vertices already visited
     verts, pre = L.seq, L.prefix
     return _marker_inv(L, lambda ob: And(Mem(verts, ob), Not(Mem(pre, ob))))
+
+
+# =============================================================================================== make_pyvis_net, functional (C15)
+from .helpers import heap_key as _hk       # noqa: E402
+ISeq = T.ISeq
+IUnit = lambda i: z3.Unit(i)
+
+
+class PyvisEnv:
+    """spec vocabulary of C15 for one call (universe u, label callback rv, heap S - links and ends do not change during the call):
+         V          the members of u, in order; n = |V|
+         pos(x)     the node id of member x (its position in V): ghost, fixed when the node is added
+         IOTA(k)    [0, 1, ..., k-1];  LAB(p) the labels of the vertices p (rvfunc(x), or hex(id(x)))
+         GL         ghost: the links an edge record was added for, in the order of the records
+         MF / MT / MA   map over GL of pos(v1), pos(v2), 1 if DirectedEdge else 0  - the from / to / arrow columns"""
+
+    def __init__(self, S, ct, uni, rv):
+        self.S, self.ct, self.uni, self.rv = S, ct, uni, rv
+        tag = f"{uni}@{_hk(S)}"
+        self.V = S.members(uni)
+        self.n = Len(self.V)
+        self.pos = z3.Function(f"pv_pos@{tag}", Ref, Int)
+        self.IOTA = z3.Function("pv_iota", Int, ISeq)
+        self.LAB_ = z3.Function(f"pv_labels@{tag}", Ref, RSeq, RSeq)
+        self.MF = z3.Function(f"pv_from@{tag}", RSeq, ISeq)
+        self.MT = z3.Function(f"pv_to@{tag}", RSeq, ISeq)
+        self.MA = z3.Function(f"pv_arrow@{tag}", RSeq, ISeq)
+
+    def LAB(self, p):
+        return self.LAB_(self.rv, p)
+
+    def label(self, x):
+        return If(self.rv != NONE, T.cbv1(self.rv, x), T.hexid(x))
+
+    def isdir(self, l):
+        return self.ct.is_a(l, "DirectedEdge")
+
+    @staticmethod
+    def _snoc(sq):
+        parts = T._flat(sq)
+        if parts and T._is_unit(parts[-1]) and not T._is_empty(sq):
+            return cat(*parts[:-1]), parts[-1].arg(0)
+        return None
+
+    def node_defs(self, p):
+        """IOTA / LAB by snoc recursion for the prefix at hand; k is not among 0..k-1"""
+        k = Len(p)
+        out = [self.IOTA(z3.IntVal(0)) == z3.Empty(ISeq), self.LAB(EMPTY()) == EMPTY(), Not(z3.Contains(self.IOTA(k), IUnit(k)))]
+        sp = self._snoc(p)
+        if sp:
+            head, x = sp
+            out += [self.IOTA(Len(head) + 1) == z3.Concat(self.IOTA(Len(head)), IUnit(Len(head))),
+                    self.LAB(p) == snoc(self.LAB(head), self.label(x)),
+                    Not(z3.Contains(self.IOTA(Len(head)), IUnit(Len(head))))]
+        return out
+
+    def iota_mem_defs(self, p):
+        """membership in IOTA by snoc recursion, per reference term: i in IOTA(k+1)  <=>  i in IOTA(k) or i = k"""
+        sp = self._snoc(p)
+        if not sp:
+            return []
+        head, _x = sp
+        k = Len(head)
+        return [Schema("iota-membership-snoc", (Ref,), lambda y: z3.Contains(self.IOTA(k + 1), IUnit(self.pos(y))) == Or(
+            z3.Contains(self.IOTA(k), IUnit(self.pos(y))), self.pos(y) == k))]
+
+    def edge_defs(self, GL):
+        out = [self.MF(EMPTY()) == z3.Empty(ISeq), self.MT(EMPTY()) == z3.Empty(ISeq), self.MA(EMPTY()) == z3.Empty(ISeq)]
+        sp = self._snoc(GL)
+        if sp:
+            head, l = sp
+            S = self.S
+            out += [self.MF(GL) == z3.Concat(self.MF(head), IUnit(self.pos(S.v1(l)))),
+                    self.MT(GL) == z3.Concat(self.MT(head), IUnit(self.pos(S.v2(l)))),
+                    self.MA(GL) == z3.Concat(self.MA(head), IUnit(If(self.isdir(l), z3.IntVal(1), z3.IntVal(0))))]
+        return out
+
+    def joined_defs(self, GL):
+        """`joined` (some record joins ids i and j, either orientation) by snoc recursion, for the pairs of the query"""
+        sch = [Schema("joined-nil", (Ref, Ref), lambda x, l: Not(T.joined(z3.Empty(ISeq), z3.Empty(ISeq), self.pos(x), self.pos(self.S.v2(l)))),
+                      pair_from=("_links@",))]
+        sp = self._snoc(GL)
+        if sp:
+            head, e = sp
+            S = self.S
+            a, b = self.pos(S.v1(e)), self.pos(S.v2(e))
+
+            def f(x, l):
+                i, j = self.pos(x), self.pos(S.v2(l))
+                return T.joined(self.MF(GL), self.MT(GL), i, j) == Or(T.joined(self.MF(head), self.MT(head), i, j),
+                                                                        And(a == i, b == j), And(a == j, b == i))
+            sch.append(Schema("joined-snoc", (Ref, Ref), f, pair_from=("_links@",)))
+        return sch
+
+    def pos_facts(self, p, total=None):
+        """node ids of the vertices in p: in range, and the vertex at that position of V is the vertex itself"""
+        k = Len(p) if total is None else total
+
+        def f(x):
+            return Implies(Mem(p, x), And(self.pos(x) >= 0, self.pos(x) < k, Nth(self.V, self.pos(x)) == x,
+                                          T.int_unbox(T_int_box(self.pos(x))) == self.pos(x),
+                                          z3.Contains(self.IOTA(k), IUnit(self.pos(x)))))
+        return Schema("node-ids-are-positions", (Ref,), f)
+
+    def record_facts(self, GL, done):
+        """clause (b): every record stands for one link, both of whose ends are members, listed at its first end; no link has two
+        records; `done(l)`: where the scan must have been for l to have a record"""
+        S = self.S
+
+        def f(l):
+            return Implies(Mem(GL, l), And(Cnt(GL, l) == 1, Mem(self.V, S.v1(l)), Mem(self.V, S.v2(l)), Mem(S.links(S.v1(l)), l), done(l)))
+        from .builders import members_of
+        return members_of("every-edge-record-stands-for-one-link-between-members", GL, f)
+
+    def complete(self, GL, scanned):
+        """clause (c): every scanned link from a member x to a member has a record, or (not a DirectedEdge) its pair of nodes is
+        already joined by a record"""
+        S = self.S
+
+        def f(x, l):
+            return Implies(And(scanned(x, l), Mem(S.links(x), l), S.v1(l) == x, Mem(self.V, S.v2(l))),
+                           Or(Mem(GL, l), And(Not(self.isdir(l)), T.joined(self.MF(GL), self.MT(GL), self.pos(x), self.pos(S.v2(l))))))
+        return Schema("every-internal-link-is-drawn", (Ref, Ref), f, pair_from=("_links@",))
+
+
+from pyvc.ops import int_box as T_int_box      # noqa: E402
+
+
+def pyvis_functional_pre(c, S, ct, uni, rv, re_):
+    c.assume_inv(TY_unis(S, ct))
+    c.assume_inv(TY_links(S, ct))
+    c.assume_inv(I1_nodup(S, ct))
+    c.assume_inv(no_marker(S))
+    V = S.members(uni)
+    c.assume_inv(Schema("members-are-distinct-vertices", (Ref,), lambda x: And(Cnt(V, x) <= 1, Implies(Mem(V, x), And(x != NONE, ct.is_a(x, "Vertex"))))))
+    c.assume_inv(Schema("every-link-of-a-member-is-two-ended", (Ref, Ref), lambda x, l: Implies(
+        And(Mem(V, x), Mem(S.links(x), l)),
+        And(l != NONE, ct.is_a(l, "TwoEndedLink"), Len(S.ends(l)) == 2, Or(x == S.v1(l), x == S.v2(l)),
+            S.v1(l) != NONE, S.v2(l) != NONE, ct.is_a(S.v1(l), "Vertex"), ct.is_a(S.v2(l), "Vertex"))), pair_from=("_links@",)))
+    c.assume_inv(Schema("rvfunc-does-not-raise", (Ref,), lambda x: Not(T.cb1_raises(rv, x))))
+    c.assume_inv(Schema("refunc-does-not-raise", (Ref,), lambda l: Not(T.cb1_raises(re_, l))))
+
+
+@contract("pyvis.make_pyvis_net#functional", "uni:Universe, rvfunc:cb:vrv=None, refunc:cb:vre=None, network_kwargs:any=None",
+          props=("C15",), ext_total=True, shards=8)
+def _(c):
+    """C15.  Assumes the contract of pyvis.network.Network stated in pyvc/ops.py (call_net_method) and callbacks that return."""
+    S, ct = c.S, c.ct
+    E = PyvisEnv(S, ct, c.uni, c.rvfunc)
+    pyvis_functional_pre(c, S, ct, c.uni, c.rvfunc, c.refunc)
+    GL = c.ghost("GL", RSeq)
+    o = c.normal()
+    net = o.fresh("<container>", "net")
+    o.result(VNet(net))
+    # one node per member: ids 0..n-1 in universe order, labelled by rvfunc
+    o.set("net_nodes", net, E.IOTA(E.n))
+    o.set("net_labels", net, E.LAB(E.V))
+    # the edge records are the images of the links GL: from = id of v1, to = id of v2, arrow iff DirectedEdge
+    o.set("net_from", net, E.MF(GL))
+    o.set("net_to", net, E.MT(GL))
+    o.set("net_arrow", net, E.MA(GL))
+    o.loose("net_directed", lambda new, old, *_: [])
+    o.fact_schema(E.pos_facts(E.V))
+    o.fact_schema(E.record_facts(GL, lambda l: BoolVal(True)))
+    o.fact_schema(E.complete(GL, lambda x, l: Mem(E.V, x)))
+    o.loose("dyn_has", lambda new, old, *_: [Schema("attribute-set-unchanged", (Ref, T.Str), lambda ob, n: new(ob, n) == old(ob, n), trigger=("dyn_has",))])
+    o.loose("dyn_val", lambda new, old, P=None, *_: [Schema("attribute-values-unchanged", (Ref, T.Str), lambda ob, n: Implies(
+        And(n != MARK, S.read("dyn_has", ob, n)), new(ob, n) == old(ob, n)), trigger=("dyn_val",))])
+    o.loose("elems", lambda new, old, *_: [])
+
+
+def _pv_env(L):
+    return PyvisEnv(L.pre, L.engine.ct, L.args["uni"].term, L.args["rvfunc"].term)
+
+
+def _pv_markers(L, E, marked, valued):
+    """the temporary attribute: present exactly on `marked`, holding the node id on `valued`; everything else as at entry"""
+    S0 = L.pre
+
+    def c_has(new, old, *_):
+        return [Schema("marker-exactly-on-the-numbered-vertices", (Ref, T.Str), lambda ob, n: If(
+            n == MARK, new(ob, n) == marked(ob), new(ob, n) == S0.read("dyn_has", ob, n)), trigger=("dyn_has",))]
+
+    def c_val(new, old, *_):
+        return [Schema("marker-holds-the-node-id", (Ref, T.Str), lambda ob, n: If(
+            n == MARK, Implies(valued(ob), new(ob, n) == T_int_box(E.pos(ob))), new(ob, n) == S0.read("dyn_val", ob, n)), trigger=("dyn_val",)),
+            Schema("marker-holds-the-node-id-of-members", (Ref,), lambda ob: Implies(valued(ob), new(ob, MARK) == T_int_box(E.pos(ob))))]
+    return [Loose("dyn_has", c_has), Loose("dyn_val", c_val)]
+
+
+def _pv_net(S0, net, nodes, labels, fr, to, ar):
+    """the columns of the network under construction; nothing else of that kind changes (absolute: relative to the heap at
+    function entry, so that a nested invariant can supersede the enclosing one)"""
+    def one(fname, val):
+        def cfn(new, old, *_):
+            return [Schema(f"network-{fname}", (Ref,), lambda r: If(r == net, new(r) == val, new(r) == S0.read(fname, r)), trigger=(fname,))]
+        return Loose(fname, cfn)
+    return [one("net_nodes", nodes), one("net_labels", labels), one("net_from", fr), one("net_to", to), one("net_arrow", ar),
+            Loose("net_directed", lambda new, old, *_: [])]
+
+
+@REG.loop("pyvis.make_pyvis_net#functional", 0)
+def _(L):
+    E = _pv_env(L)
+    p = L.prefix
+    net = L.env["net"].ref
+    gdefs = E.node_defs(p)
+    if L.phase == "check":
+        head, x = E._snoc(p)
+        gdefs.append(Implies(Not(Mem(head, x)), E.pos(x) == Len(head)))      # ghost: the id given to the node just added
+    emptyI = z3.Empty(ISeq)
+    return LoopInv(loose=_pv_markers(L, E, lambda ob: Mem(p, ob), lambda ob: Mem(p, ob)) + _pv_net(L.pre, net, E.IOTA(Len(p)), E.LAB(p), emptyI, emptyI, emptyI),
+                   schemas=[E.pos_facts(p)], ground_defs=gdefs, defs=E.iota_mem_defs(p))
+
+
+def _pv_edges_inv(L, vert=None, q=None):
+    E = _pv_env(L)
+    S = L.pre
+    net = L.env["net"].ref
+    if vert is None:
+        p = L.prefix
+    else:
+        p = L.env["$P1"].term
+    if L.phase == "entry":
+        GL = EMPTY() if vert is None else L.env["$GL"].term
+    elif L.phase in ("assume", "exit"):
+        GL = T.fresh("drawn", RSeq)
+    else:
+        GL = L.env["$GL"].term
+        if vert is not None:
+            # ghost code: a record was appended in this iteration  <=>  the `from` column grew
+            cur = L.cur if L.cur is not None else L.path.st
+            grew = Len(cur.read("net_from", net)) > Len(E.MF(GL))
+            edge = L.env["edge"].term
+            GL = ite(grew, snoc(GL, edge), GL)
+    if vert is None:
+        scanned = lambda x, l: Mem(p, x)
+        done = lambda l: Mem(p, S.v1(l))
+    else:
+        scanned = lambda x, l: Or(Mem(p, x), And(x == vert, Mem(q, l)))
+        done = lambda l: Or(Mem(p, S.v1(l)), And(S.v1(l) == vert, Mem(q, l)))
+    gdefs = E.node_defs(E.V)
+    sdefs = []
+    cands = [GL] if not T._is_ite(GL) else [GL.arg(1), GL.arg(2)]
+    for g_ in cands:
+        gdefs += E.edge_defs(g_)
+        sdefs += E.joined_defs(g_)
+    define = {"$GL": VSeq(GL)}
+    facts = []
+    if vert is None:
+        define["$P1"] = VSeq(p)
+        if L.phase == "assume" and L.elem is not None:
+            # [L] a duplicate-free list has each element at one index only (List.Nodup.getElem_inj_iff): the vertex now being
+            # scanned sits at index |p| (enumerate) and at index pos(x) (its node id), so the two agree
+            x, a = L.elem, E.pos(L.elem)
+            gdefs.append(Implies(And(Cnt(E.V, x) <= 1, a >= 0, a < E.n, Nth(E.V, a) == x, Nth(E.V, Len(p)) == x), a == Len(p)))
+    else:
+        facts.append(L.env["i"].term == E.pos(vert))            # the enumerate index of the scanned vertex is its node id
+    return LoopInv(loose=_pv_markers(L, E, lambda ob: Mem(E.V, ob), lambda ob: Mem(E.V, ob)) +
+                   _pv_net(L.pre, net, E.IOTA(E.n), E.LAB(E.V), E.MF(GL), E.MT(GL), E.MA(GL)),
+                   schemas=[E.pos_facts(E.V), E.record_facts(GL, done), E.complete(GL, scanned)],
+                   facts=facts, ground_defs=gdefs, defs=sdefs, define=define, supersedes=(vert is not None))
+
+
+@REG.loop("pyvis.make_pyvis_net#functional", 1)
+def _(L):
+    return _pv_edges_inv(L)
+
+
+@REG.loop("pyvis.make_pyvis_net#functional", 2)
+def _(L):
+    return _pv_edges_inv(L, L.env["vert"].term, L.prefix)
+
+
+@REG.loop("pyvis.make_pyvis_net#functional", 3)
+def _(L):
+    # the finally block: the marker is gone from the vertices already visited; the network is not touched any more
+    E = _pv_env(L)
+    pre = L.prefix
+    S0 = L.pre
+    ent = L.st
+
+    def c_has(new, old, *_):
+        return [Schema("marker-removed-from-the-visited", (Ref, T.Str), lambda ob, n: If(
+            n == MARK, new(ob, n) == And(ent.read("dyn_has", ob, n), Not(Mem(pre, ob))), new(ob, n) == ent.read("dyn_has", ob, n)), trigger=("dyn_has",))]
+    return LoopInv(loose=[Loose("dyn_has", c_has)])
 
 
 # =============================================================================================== plaintext.basic_render (C16)
